@@ -32,6 +32,8 @@ SlackMs == 150
 M0 == [sent |-> <<>>, ndel |-> 0, alive |-> <<>>, op |-> "none", t0 |-> 0, tmo |-> -1, d |-> <<>>,
        decisive |-> "none", wrote |-> FALSE, unspec |-> FALSE, unspecNext |-> FALSE,
        closedAt |-> -1, errAt |-> -1, errN |-> 0, status |-> FALSE, fail |-> "ok",
+       \* an operation of the caller has already ended with an error (the connection's failure has surfaced)
+       failed |-> FALSE,
        \* a read issued by ANOTHER task of the caller and still pending (op "bgread"); at most one
        bg |-> [on |-> FALSE, t0 |-> 0, tmo |-> -1]]
 
@@ -93,8 +95,16 @@ EndReadG(c, m, e, t0, tmo) ==
          THEN Fail(m, "H4/error-control-word-did-not-surface")
          ELSE IF tmo = -1 \/ e.t < t0 + tmo THEN Fail(m, "read/timeout-before-the-caller-deadline")
          ELSE m
-    [] e.res = "ConnErr" ->
-         IF m.closedAt # -1 THEN m
+    [] e.res \in {"ConnErr", "OsErr"} ->
+         \* messages that arrived before the error word are delivered before the error surfaces (H1: "a read
+         \* delivers exactly the payloads ... in order"; an error word ends the connection, it does not eat
+         \* what was received before it)
+         IF ~m.failed /\ ~m.unspec /\ m.ndel < Deliverable(m) /\ m.sent[m.ndel + 1].t < e.t - SlackMs
+         THEN Fail(m, "H1/message-for-us-received-before-the-error-word-not-delivered")
+         \* the failure surfaces as a CONNECTION error (what the UDS client reacts to); only operations on a
+         \* connection whose failure has already surfaced may report "already closed" in another way
+         ELSE IF e.res = "OsErr" /\ ~m.failed THEN Fail(m, "H4/error-control-word-did-not-surface-as-connection-error")
+         ELSE IF m.closedAt # -1 THEN m
          ELSE IF m.errAt # -1 THEN Fail(m, "H4/connection-not-closed-after-error-control-word")
          ELSE Fail(m, "H1/read-failed-on-an-open-connection")
     [] OTHER -> Fail(m, "read/unexpected-exception")
@@ -109,6 +119,7 @@ EndWrite(c, m, e) ==
          IF ~m.wrote THEN Fail(m, "H2/write-completed-without-transmission")
          ELSE IF m.decisive \in {"pos", "late"} THEN m
          ELSE Fail(m, "H2/write-completed-without-acknowledgement")
+    [] e.res = "OsErr" -> IF m.failed THEN m ELSE Fail(m, "H4/failure-did-not-surface-as-connection-error")
     [] e.res = "ConnErr" ->
          IF m.decisive = "pos" THEN Fail(m, "H2/write-failed-although-acknowledged")
          ELSE IF m.decisive = "late" THEN m
@@ -124,11 +135,12 @@ EndWrite(c, m, e) ==
     [] OTHER -> Fail(m, "write/unexpected-exception")
 
 OnEnd(c, m, e) ==
-  IF e.op = "bgread" THEN [EndReadG(c, m, e, m.bg.t0, m.bg.tmo) EXCEPT !.bg.on = FALSE] ELSE
+  IF e.op = "bgread" THEN [EndReadG(c, m, e, m.bg.t0, m.bg.tmo) EXCEPT !.bg.on = FALSE,
+                                                                       !.failed = (@ \/ e.res \notin {"ok", "Timeout"})] ELSE
   LET m1 == CASE e.op = "read" -> EndRead(c, m, e)
               [] e.op = "write" -> EndWrite(c, m, e)
               [] OTHER -> m
-  IN [m1 EXCEPT !.op = "none"]
+  IN [m1 EXCEPT !.op = "none", !.failed = (@ \/ e.res \notin {"ok", "Timeout"})]
 
 OnFinal(c, m, e) ==
   IF \E i \in 1..Len(m.alive) : m.alive[i] < e.t /\ (m.closedAt = -1 \/ m.closedAt > m.alive[i])
